@@ -177,3 +177,48 @@ func VerifC14ContentionSample() {
 	vAssert(len(value) == 2 && value[1] == wantDelay, "C14.contention.delay: delay is not the record's delay scaled by period/GHz")
 	vObserve(value[0], value[1])
 }
+
+func init() { vRegister("VerifC08LegacyCPUOrder", VerifC08LegacyCPUOrder) }
+
+// VerifC08LegacyCPUOrder (property C08): parsing the same legacy binary CPU
+// profile gives the same profile whatever order Go's maps are iterated in -
+// few samples with different or equal second frames (where the heuristics
+// that strip a shared signal-handler frame tally candidates in a map).
+func VerifC08LegacyCPUOrder() {
+	size, big := 8, false
+	var data []byte
+	for _, w := range []uint64{0, 3, 0, 10000, 0} {
+		data = vPutWord(data, w, size, big)
+	}
+	nrec := 2 + vChoice("records", 2)
+	seconds := []uint64{0x2000, 0x3000, 0x2000}
+	eq := vChoice("equalsecond", 2) == 1
+	for r := 0; r < nrec; r++ {
+		data = vPutWord(data, 1, size, big)
+		data = vPutWord(data, 3, size, big)
+		data = vPutWord(data, uint64(0x1000+0x10*r), size, big)
+		s := seconds[r]
+		if eq {
+			s = 0x2000
+		}
+		data = vPutWord(data, s, size, big)
+		data = vPutWord(data, 0x9000, size, big)
+	}
+	for _, w := range []uint64{0, 1, 0} {
+		data = vPutWord(data, w, size, big)
+	}
+	parse := func(mode string) string {
+		vMapOrder(mode)
+		p, err := parseCPU(append([]byte{}, data...))
+		if err != nil {
+			return "error"
+		}
+		return p.String()
+	}
+	first := parse("insertion")
+	second := parse("reverse")
+	third := parse("rotate")
+	vMapOrder("")
+	vReach("C08.cpuorder:parsed")
+	vAssert(vAnd(vStrEq(first, second), vStrEq(first, third)), "sched:C08.cpuorder: parsing the same binary CPU profile depends on map iteration order")
+}
